@@ -186,21 +186,45 @@ theorem writeM_env (b : Bytes) (env env' : Env) (tw : TW) :
     funext r
     cases r <;> rfl
 
-theorem writeAllM_env (cs : List Bytes) (env env' : Env) (tw : TW) :
-    writeAllM cs ⟨env', tw⟩ = withEnv env' (writeAllM cs ⟨env, tw⟩) := by
-  induction cs generalizing tw env with
-  | nil => rfl
-  | cons c cs ih =>
-    simp only [writeAllM, bind, M.bind]
-    rw [writeM_env c env env' tw]
-    unfold withEnv
-    rw [Prog.bind_assoc, Prog.bind_assoc]
+theorem flushM_env (env env' : Env) (tw : TW) :
+    flushM ⟨env', tw⟩ = withEnv env' (flushM ⟨env, tw⟩) := by
+  unfold flushM withEnv
+  simp only
+  split
+  · rfl
+  · simp only [Prog.bind]
     congr 1
     funext r
-    obtain ⟨u, s1⟩ := r
-    obtain ⟨e1, tw1⟩ := s1
-    simp only [Prog.bind]
-    exact ih e1 tw1
+    cases r <;> rfl
+
+/-- programs that neither read nor change the variables compose -/
+theorem bindM_env {α β} (m : M α) (f : α → M β)
+    (hm : ∀ env env' tw, m ⟨env', tw⟩ = withEnv env' (m ⟨env, tw⟩))
+    (hf : ∀ a env env' tw, f a ⟨env', tw⟩ = withEnv env' (f a ⟨env, tw⟩)) (env env' : Env) (tw : TW) :
+    (m >>= f) ⟨env', tw⟩ = withEnv env' ((m >>= f) ⟨env, tw⟩) := by
+  simp only [bind, M.bind]
+  rw [hm env env' tw]
+  unfold withEnv
+  rw [Prog.bind_assoc, Prog.bind_assoc]
+  congr 1
+  funext r
+  obtain ⟨u, s1⟩ := r
+  obtain ⟨e1, tw1⟩ := s1
+  simp only [Prog.bind]
+  exact hf u e1 env' tw1
+
+theorem writeVerbatimM_env (b : Bytes) (env env' : Env) (tw : TW) :
+    writeVerbatimM b ⟨env', tw⟩ = withEnv env' (writeVerbatimM b ⟨env, tw⟩) := by
+  unfold writeVerbatimM
+  exact bindM_env _ _ (writeM_env _) (fun _ => bindM_env _ _ (writeM_env b) (fun _ => flushM_env)) env env' tw
+
+theorem writeAllM_env (cs : List Bytes) (env env' : Env) (tw : TW) :
+    writeAllM cs ⟨env', tw⟩ = withEnv env' (writeAllM cs ⟨env, tw⟩) := by
+  induction cs generalizing tw env env' with
+  | nil => rfl
+  | cons c cs ih =>
+    unfold writeAllM
+    exact bindM_env _ _ (writeVerbatimM_env c) (fun _ env env' tw => ih env env' tw) env env' tw
 
 /-- two object nodes whose expressions have the same value, run on the same trim writer with different
     variables, do the same (writes, failure, status); the final variables are those each started with -/
